@@ -6,8 +6,8 @@ EXTENDS Gen, Json, IOUtils
 Traces == IF "TRACE_FILE" \in DOMAIN IOEnv THEN ndJsonDeserialize(IOEnv.TRACE_FILE) ELSE <<>>
 VARIABLES tid, l
 T == Traces[tid]
-C == [mapping |-> T.cfg.mapping, type |-> T.cfg.type, tpl |-> T.cfg.tpl, prepend |-> T.cfg.prepend, imports |-> T.cfg.imports, exists |-> T.cfg.exists]
-Want == [i \in 1..Len(C.mapping) |-> Templated(C.tpl, C.mapping[i])]
+C == [mapping |-> T.cfg.mapping, type |-> T.cfg.type, tpl |-> T.cfg.tpl, prepend |-> T.cfg.prepend, imports |-> T.cfg.imports, exists |-> T.cfg.exists, alias |-> T.cfg.alias]
+Want == Names(C)
 Pre(o) == SelectSeq(o, LAMBDA x : x \in {"prepend", "import"})
 Clauses ==
   IF C.exists
